@@ -3,6 +3,7 @@ every custom resolver looks its return value up in the current case's table
 (response path -> raw value predicted by the specification), records the call
 (path, parent identity, arguments, context identity) and optionally waits on a
 harness-owned gate so the schedule can be decided by the caller."""
+import zlib
 import base
 from base import Loop, main_loop, unique_schema_name, snapshot_and_scribble
 import render
@@ -220,6 +221,12 @@ class World:
                     return None
                 r = raw["r"]
                 if r == "raise":
+                    # user exceptions come in all shapes: with a message, without any argument, with a non-string argument
+                    shape = zlib.crc32("/".join(path).encode()) % 4
+                    if shape == 1:
+                        raise NotImplementedError
+                    if shape == 2:
+                        raise KeyError(("boom", 7))
                     raise RuntimeError("boom@" + "/".join(path))
                 if r == "raiseLib":
                     raise lib_error("lib@" + "/".join(path), {"code": "/".join(path)})
